@@ -55,7 +55,8 @@ class InterestTreeNode:
 
     def nack_interest(self, nack_reason: int) -> bool:
         for entry in self.pending_list:
-            entry.future.set_exception(InterestNack(nack_reason))
+            if not entry.future.done():
+                entry.future.set_exception(InterestNack(nack_reason))
         return True
 
     def satisfy(self, data: DataTuple, is_prefix: bool) -> bool:
@@ -71,7 +72,8 @@ class InterestTreeNode:
             else:
                 passed = False
             if passed:
-                entry.future.set_result(data)
+                if not entry.future.done():
+                    entry.future.set_result(data)
             else:
                 unsatisfied_entries.append(entry)
         if unsatisfied_entries:
